@@ -35,13 +35,13 @@ WORKERS = {"quick": 1, "thorough": 14}
 
 def gen_cases(ctx):
     rng = ctx.rng
-    for i in range(ctx.scale(6000, 150000)):
+    for i in range(ctx.scale(6000, 900000)):
         c = gen_history_case(rng, max_jobs=rng.choice([2, 3, 4, 5, 6]), max_machines=rng.choice([2, 3, 4, 5]))
         c["kind"] = ["standalone", "standalone_factory", "env", "standalone_reset",
                      "standalone_midhistory"][i % 5]
         c["reward"] = rng.choice(["makespan", "idle"])
         yield c
-    for i in range(ctx.scale(60, 1500)):
+    for i in range(ctx.scale(60, 9000)):
         yield {"kind": "multi_env", "seed": rng.randrange(2**31),
                "reward": rng.choice(["makespan", "idle"]),
                "recirc": rng.random() < 0.0, "instance": {"cls": "generated"}}
